@@ -175,7 +175,7 @@ func doBuild(race bool) *build {
 		sum, _ := os.ReadFile(filepath.Join(simDir, "go.sum"))
 		os.WriteFile(filepath.Join(dir, "go.sum"), sum, 0o644)
 	}
-	args := []string{"-out", dir, "-sim", simDir, "-add", filepath.Join(simDir, "overlay_add")}
+	args := []string{"-out", dir, "-sim", simDir, "-add", filepath.Join(simDir, "_overlay_add")}
 	if race {
 		args = append(args, "-race")
 	}
@@ -360,6 +360,12 @@ func check(prop string, pc propConf, tier string) int {
 				mu.Lock()
 				if okSum && err == nil {
 					sums = append(sums, s)
+					if len(s.Violations) > 0 {
+						// violations found: no need to spend the whole budget on a broken tree
+						if d := time.Now().Add(20 * time.Second); d.Before(deadline) {
+							deadline = d
+						}
+					}
 				} else {
 					cr, t := classifyWorkerDeath(prop, tier, eb.String(), err)
 					if cr != nil {
@@ -438,6 +444,15 @@ func check(prop string, pc propConf, tier string) int {
 	newViol := 0
 	var knownLines, violLines []string
 	os.MkdirAll(filepath.Join(verifDir, "replays"), 0o755)
+	type job struct {
+		sig     string
+		verdict Violation
+		rf      ReplayFile
+		path    string
+		ok      bool
+		why     string
+	}
+	var jobs []*job
 	for _, sig := range order {
 		status := ""
 		desc := ""
@@ -457,16 +472,30 @@ func check(prop string, pc propConf, tier string) int {
 				verdict = x
 			}
 		}
-		rf := ReplayFile{Prop: prop, Seed: v.Seed, Tier: tier, Mode: v.Mode, Tape: v.Tape, Verdict: verdict, Sample: v.Sample}
-		path, ok, why := minimiseAndConfirm(b, rf)
-		if !ok {
-			fmt.Fprintf(os.Stderr, "vcheck: violation %s (seed %d) did not replay: %s — harness trouble, not reported as a violation\n", sig, v.Seed, why)
+		jobs = append(jobs, &job{sig: sig, verdict: verdict, rf: ReplayFile{Prop: prop, Seed: v.Seed, Tier: tier, Mode: v.Mode, Tape: v.Tape, Verdict: verdict, Sample: v.Sample}})
+	}
+	// minimise + confirm the signatures in parallel (independent worker processes)
+	var jwg sync.WaitGroup
+	jsem := make(chan struct{}, 8)
+	for _, j := range jobs {
+		jwg.Add(1)
+		go func(j *job) {
+			defer jwg.Done()
+			jsem <- struct{}{}
+			defer func() { <-jsem }()
+			j.path, j.ok, j.why = minimiseAndConfirm(b, j.rf)
+		}(j)
+	}
+	jwg.Wait()
+	for _, j := range jobs {
+		if !j.ok {
+			fmt.Fprintf(os.Stderr, "vcheck: violation %s (seed %d) did not replay: %s — harness trouble, not reported as a violation\n", j.sig, j.rf.Seed, j.why)
 			exit = 2
 			continue
 		}
 		newViol++
-		violLines = append(violLines, fmt.Sprintf("VIOLATION property=%s replay=%s", prop, path))
-		fmt.Fprintf(os.Stderr, "vcheck: %s: %s\n", sig, firstLine(verdict.Detail))
+		violLines = append(violLines, fmt.Sprintf("VIOLATION property=%s replay=%s", prop, j.path))
+		fmt.Fprintf(os.Stderr, "vcheck: %s: %s\n", j.sig, firstLine(j.verdict.Detail))
 	}
 	for _, l := range knownLines {
 		fmt.Println(l)
@@ -543,7 +572,7 @@ func minimiseAndConfirm(b *build, rf ReplayFile) (string, bool, string) {
 	jb, _ := json.MarshalIndent(rf, "", " ")
 	os.WriteFile(raw, jb, 0o644)
 	minOut := filepath.Join(b.dir, "min-"+name)
-	cmd := b.worker(1, "-minimise", raw, "-out", minOut, "-deadline", "45s")
+	cmd := b.worker(1, "-minimise", raw, "-out", minOut, "-deadline", "20s")
 	var eb bytes.Buffer
 	cmd.Stderr, cmd.Stdout = &eb, &eb
 	err := cmd.Run()
